@@ -161,6 +161,14 @@ C14_Close ==
           \* allocation has no challenge pool: its blobbers are paid from the write pool, at most its cost
           /\ spent <= (IF pa.ent THEN pa.cost + Len(pa.bas) ELSE SumIV(pa.bas, 1) + pa.ccap)
           /\ Credited(pa.bas, 1) <= spent                         \* nothing credited beyond what the owner paid
+\* "refunds every remaining write-pool token to the owner": what is not refunded went to the blobbers - no token
+\* of the two pools is left behind at the contract (its own invariant so that the recorded finding about dead
+\* providers' shares suspends only this, see TraceLib!IsKnownFor)
+C14_RefundExact ==
+  (IsClose /\ ~IsKnownFor(ev, "C14_RefundExact") /\ OpenIn(prev, ev.target)) =>
+    LET pa == AllocIn(prev, ev.target)
+        spent == pa.wp + pa.cp - DBal(ev, pa.owner)
+    IN ~pa.ent => Credited(pa.bas, 1) = spent
 C14_Once == \A n \in DOMAIN closes : closes[n] <= 1
 AllocFns == {"finalize_allocation", "cancel_allocation", "write_pool_lock", "commit_connection", "challenge_response",
              "read_redeem", "update_allocation_request"}
